@@ -1,11 +1,11 @@
 #!/bin/bash
 # like try_mutation.sh but in a scratch worktree (/tmp/rt) selected through FV_REPO, so /repo stays untouched
 patch="$1"; tier="$2"; shift 2
-wt=/tmp/rt
+wt=${WT:-/tmp/rt}
 cd $wt || exit 2
 git checkout -q -- . ; git clean -fdq -- dsl_compiler lib compile.py
 git apply "$patch" || { echo "patch does not apply"; exit 2; }
-trap 'git -C /tmp/rt checkout -q -- . ; git -C /tmp/rt clean -fdq -- dsl_compiler lib compile.py' EXIT
+trap "git -C $wt checkout -q -- . ; git -C $wt clean -fdq -- dsl_compiler lib compile.py" EXIT
 cd /verif
 for id in "$@"; do
   out=$(FV_REPO=$wt ./check "$id" --tier "$tier" 2>&1)
